@@ -11,11 +11,13 @@ SPEC = dict(
         "Pool: which idle resource Get picks, and whether it reuses or creates, is left open; destroy of a non-expired idle resource is not flagged",
         "callbacks / create / generate functions may panic and the calling goroutine recovers; callers sharing a panicked single flight receive (nil, nil) (HEAD behaviour, accepted), ResourceManager.Get callers sharing a panicked create may themselves panic (accepted, counted as failed Gets)",
         "ManagedResource: a resource is replaced only after MarkBroken was called with that very resource (stale reports must leave the current resource alone)",
+        "integration boundary: of the production users of the primitives only api/handler.MaxConns (syncx.Limit) is driven here; the other users (SingleFlight in rpc/proxy, lib/collection cache, lib/store/cache, sqlc; ResourceManager in redis/sqlx/discov; SpinLock in lib/load; Barrier in lib/executors; DoneChan in discov publisher) belong to the monitors of those packages (C06/C08/C09/C15/C16/C17)",
         "ImmutableResource is checked sequentially only (concurrent Gets may legitimately fetch concurrently)",
     ],
     runs=[
         dict(pkg="./lib/syncx", run="^TestVerifC18Plain", timeout=300, timeout_thorough=3000),
         dict(pkg="./lib/syncx", run="^TestVerifC18Race", race=True, timeout=400, timeout_thorough=3000),
+        dict(pkg="./api/handler", run="^TestVerifC18MaxConns", timeout=300, timeout_thorough=1500),
         dict(pkg="./lib/syncx", run="^TestVerifC18Plain(Flight|Limit)", name="failpoints", thorough_only=True, timeout_thorough=3000,
              failpoints=[
                  dict(file="lib/syncx/singleflight.go", anchor="c.wg.Done()", name="c18SfBeforeDone", where="before"),
